@@ -146,7 +146,21 @@ func ruleR14d(c *Check) {
 			why = "the loop over the checks can return success before the last check: " + w
 		}
 	}
-	c.Require(okLoop, "R14d", "checks-loop/"+fname, "every check is run; success is returned only after the last one", why, c.P.InstrPos(runs[0]))
+	if okLoop {
+		// the check command runs on every iteration
+		var bodyEntry *ssa.BasicBlock
+		for _, s := range lp.Header.Succs {
+			if lp.Body[s] {
+				bodyEntry = s
+			}
+		}
+		toHeader := func(in ssa.Instruction) bool { return in == lp.Header.Instrs[0] }
+		if reach, _ := engine.PathExists(fn, firstInstrBefore(bodyEntry), toHeader, engine.PathQuery{CutInstr: engine.IsInstr(runs[0])}); reach {
+			okLoop = false
+			why = "an iteration of the loop over the checks can skip running the check command (conditional `continue`, memoised result): a check whose condition was destroyed is not re-evaluated"
+		}
+	}
+	c.Require(okLoop, "R14d", "checks-loop/"+fname, "every check is run on every call; success is returned only after the last one", why, c.P.InstrPos(runs[0]))
 	// mismatch comparison: an `ne` atom between values derived from ExpectedOutput and from the command output, leading only to failure
 	found := false
 	okCmp := true
